@@ -83,9 +83,10 @@ Print Assumptions C07_ids_unique_hash_step.
        accepts; the node type can represent repeated keys, on which the removal is not idempotent);
      * legacy order: the order decides every pair of outputs with different ids ([node_order_total]; holds for the ids
        C11 calls valid: LegacySortProofs.less_total) - otherwise sort.Sort / insertion sort may permute equal keys;
-       fifo / no order: the output ids are pairwise distinct and no output carries local-config - EXACTLY what the
-       C07 finding (a local-config resource named like a hashed generated one) violates, so these two cannot be dropped;
-       C07_ids_unique_build discharges the first for well-formed trees without a plain clash;
+       fifo / no order: the output ids are pairwise distinct - EXACTLY what the C07 finding (a local-config resource
+       named like a hashed generated one) violates, so it cannot be dropped (that no output carries local-config then
+       follows: a local-config resource survives IgnoreLocal only by sharing its id with a kept one);
+       C07_ids_unique_build discharges it for well-formed trees without a plain clash;
      * the name-reference pass of the second build leaves the loaded documents alone (all candidates have an empty
        rename history, so no reference is rewritten; what remains is that the traversal of the reference paths
        neither fails nor promotes a null - not proved in general, stated as a hypothesis).
@@ -97,7 +98,7 @@ Theorem C07_fixpoint_build :
     let outs := map strip_node pre in
     (match o with
      | PSortLegacy first last => node_order_total first last outs
-     | _ => distinct_node_ids outs /\ forall n, In n outs -> is_local n = false
+     | _ => distinct_node_ids outs
      end) ->
     pipe_rules = Ok rules ->
     nameref_transform pipe_cs nonstr rules (map load outs) = Ok (map load outs) ->
@@ -116,3 +117,17 @@ Theorem C07_strip_node_idempotent :
   forall n, meta_clean n -> strip_node (strip_node n) = strip_node n.
 Proof. exact strip_node_idem. Qed.
 Print Assumptions C07_strip_node_idempotent.
+
+(* why the name-reference hypothesis of C07_fixpoint_build is mild: a resource read from a file has an empty rename
+   history, and against candidates with an empty history Filter.set never rewrites a reference (selectReferral only
+   selects a candidate one of whose PREVIOUS ids carries the referenced name) *)
+Theorem C07_nameref_history_free_pure :
+  forall nonstr x cands n n',
+    history_free cands -> nr_set nonstr x cands n = Ok n' -> n' = n.
+Proof. exact nr_set_history_free. Qed.
+Print Assumptions C07_nameref_history_free_pure.
+
+Theorem C07_loaded_candidates_history_free :
+  forall n c, view pipe_cs (load n) = Ok c -> c_prev c = [].
+Proof. exact view_loaded. Qed.
+Print Assumptions C07_loaded_candidates_history_free.
